@@ -1,0 +1,35 @@
+//go:build verif
+
+// Contracts of the json-patch command for /verif (build tag verif: comment-only, not part of the normal build).
+
+package main
+
+// main: reads the patch files in command-line order, decodes each, reads the document from standard input,
+// applies the patches one after another (each to the result of the previous one), and writes exactly the final
+// document; every failure ends in log.Fatalf (standard error, exit status 1) before anything was written.
+//@ func main
+//@   callsite[C20] ReadFile#1 reads-the-patch-files-in-command-line-order: arg_filename == string(o.PatchFilePaths[i])
+//@   callsite[C20] DecodePatch#1 decodes-what-was-read: arg_buf == bs
+//@   callsite[C20] Apply#1 each-patch-applied-to-the-previous-result-in-order: arg_p == patches[rangeindex + 1] && arg_doc == mdoc
+//@   callsite[C20] Printf#1 writes-exactly-the-final-document: arg_format == "%s" && len(arg_a) == 1 && istype(arg_a[0], []byte) && unbox(arg_a[0], []byte) == mdoc && Stdout == old(Stdout)
+//@   callsite[C20] Fatalf#1 nothing-written-before-failing: Stdout == old(Stdout)
+//@   callsite[C20] Fatalf#2 nothing-written-before-failing: Stdout == old(Stdout)
+//@   callsite[C20] Fatalf#3 nothing-written-before-failing: Stdout == old(Stdout)
+//@   callsite[C20] Fatalf#4 nothing-written-before-failing: Stdout == old(Stdout)
+//@   callsite[C20] Fatalf#5 nothing-written-before-failing: Stdout == old(Stdout)
+//@   ensures[C20] output-is-the-final-document: exists m []byte :: Stdout == old(Stdout) ++ bytes(m)
+//@   loop 1
+//@   invariant decoded-so-far: len(patches) == len(o.PatchFilePaths) && (forall j int {patches[j]} :: 0 <= j && j <= rangeindex ==> rPatchOK(patches[j]))
+//@   invariant nothing-written: Stdout == old(Stdout)
+//@   loop 2
+//@   invariant nothing-written: Stdout == old(Stdout)
+//@   invariant patches-kept: patches == atentry(patches) && (forall j int {patches[j]} :: 0 <= j && j < len(patches) ==> rPatchOK(patches[j]))
+
+//@ func (*FileFlag).UnmarshalFlag
+//@   requires recv: f != nil
+//@   modifies *f
+//@   ensures[C20] directory-is-rejected: true
+
+//@ func (FileFlag).Path
+//@   modifies nothing
+//@   ensures[C20] path: result == string(f)
